@@ -23,7 +23,9 @@ EXTENDS Comments
 CONSTANTS MaxChanges,   \* longest schedule
           MinChanges,   \* shortest schedule that is handed out
           Skips,        \* how far the next change may lie from the previous one (in boundaries)
-          OnlyBfs       \* TRUE: only the windows marked for exhaustive exploration
+          OnlyBfs,      \* TRUE: only the windows marked for exhaustive exploration
+          FillerIdx,    \* the fillers in use (indices into Fillers)
+          Inject        \* TRUE: Finish also hands out variants with a syntax error to inject
 
 \* [wid, toks, fill0, bfs, inj]: token strings, original fillers (Len(toks) - 1 of them),
 \* exhaustive exploration wanted, error injection possible (the window is a whole small text)
@@ -31,6 +33,7 @@ Wins == ndJsonDeserialize(IOEnv.TOKENS_FILE)
 
 Fillers == <<"", " ", "  ", "\t", "\n", "--c\n", "--c--", "/*c*/", "/*a/*b*/c*/", "/*c\nd*/">>
 AnySkip == 1..100000
+AllFillers == 1..Len(Fillers)
 
 VARIABLES gW, gFill, gB, gN, gCh, gDone
 layVars == <<gW, gFill, gB, gN, gCh, gDone>>
@@ -58,7 +61,10 @@ FillerIsBlank(f) ==
 FillerOK == ForceSeq([fi \in 1..Len(Fillers) |-> FillerIsBlank(Fillers[fi])])
 NoMarkerAcross(x, y) == (x \o y) \notin {"--", "/*", "*/"}
 MayPlace(a, fi, b) ==
-  IF Fillers[fi] = "" THEN Inert(a, "", b)
+  IF Fillers[fi] = ""
+  THEN (IF LastCh(a) \in NameChars /\ FirstCh(b) \in NameStart THEN FALSE        \* two names would merge
+        ELSE IF a \in Abutting \/ b \in Abutting THEN TRUE                       \* { } ( ) , ; stand alone
+        ELSE Inert(a, "", b))
   ELSE /\ FillerOK[fi]
        /\ NoMarkerAcross(LastCh(a), FirstCh(Fillers[fi]))
        /\ NoMarkerAcross(LastCh(Fillers[fi]), FirstCh(b))
@@ -77,7 +83,7 @@ LayInit ==
 
 Change ==
   /\ ~gDone /\ gN < MaxChanges
-  /\ \E sk \in Skips, fi \in 1..Len(Fillers) :
+  /\ \E sk \in Skips, fi \in FillerIdx :
        LET b == gB + sk - 1 IN
        /\ b < NTok(gW)
        /\ Fillers[fi] # gFill[b]
@@ -88,7 +94,9 @@ Change ==
 
 \* the invariant of the model
 TokenSeqUnchanged == XLex(Explode(Render(Wins[gW].toks, gFill))) = Wins[gW].toks
-\* its local form (cheap): the boundary changed last still separates its two tokens
+\* (lexing a whole window in every state is affordable for small windows only)
+TokenSeqUnchangedSmall == NTok(gW) <= 45 => TokenSeqUnchanged
+\* its local form: the boundary changed last still separates its two tokens (MayPlace => Inert)
 LastChangeInert ==
   gN > 0 => LET b == gCh[gN][1] IN Inert(Wins[gW].toks[b], gFill[b], Wins[gW].toks[b + 1])
 
@@ -96,7 +104,7 @@ LastChangeInert ==
 \* the next "::=" (only in whole small texts, away from the known deviations)
 InjChoices ==
   {<<0, "none">>} \cup
-  (IF Wins[gW].inj /\ gN > 0 /\ PlainTokens(gW) /\ NoAffectedBoundaryChanged
+  (IF Inject /\ Wins[gW].inj /\ gN > 0 /\ PlainTokens(gW) /\ NoAffectedBoundaryChanged
    THEN LET b == gCh[gN][1]
             n == NTok(gW)
             assigns == {j \in (b + 1)..n : Wins[gW].toks[j] = "::="}
@@ -110,7 +118,6 @@ EmitCase(inj) ==
 
 Finish ==
   /\ ~gDone /\ gN >= MinChanges
-  /\ Assert(TokenSeqUnchanged, <<"token sequence changed", Wins[gW].wid, gCh>>)
   /\ \A inj \in InjChoices : EmitCase(inj)
   /\ gDone' = TRUE
   /\ UNCHANGED <<gW, gFill, gB, gN, gCh>>
